@@ -352,8 +352,10 @@ func scenarioQueuedOnMutex() (bool, string) {
 		case <-time.After(time.Second):
 			return false, fmt.Sprintf("%s: Shutdown returned nil but the Serve call is still running one second later (Close was called %d times on its listener)", what, atomic.LoadInt32(&conn.nclose))
 		}
-		if n := atomic.LoadInt32(&conn.nclose); !shutdownFirst && n != 1 {
-			return false, fmt.Sprintf("%s: the registered listener was closed %d times, want 1", what, n)
+		// (on a loaded machine the two goroutines may reach the mutex in the other order: either order is a legal
+		// schedule and both must end as checked above; a listener is closed at most once)
+		if n := atomic.LoadInt32(&conn.nclose); n > 1 {
+			return false, fmt.Sprintf("%s: the listener was closed %d times, want at most once", what, n)
 		}
 	}
 	return true, ""
